@@ -7,6 +7,8 @@
 import LiteFSVerif.Model.Checksum
 import LiteFSVerif.Proofs.Image
 import LiteFSVerif.Proofs.Checksum
+import LiteFSVerif.Gen.Skel
+import LiteFSVerif.Model.ExpectedSkel
 
 set_option linter.unusedSimpArgs false
 
@@ -122,5 +124,16 @@ theorem C04_init_blocks_current : BlocksOK {} := by
 /-- the lock page number exists exactly for non-zero page sizes (Go panics otherwise) -/
 theorem C04_lock_defined (ps : Nat) (h : ps ≠ 0) : lockPgno ps = .ok (1073741824 / ps + 1) := by
   simp [lockPgno, h]
+
+/-- the control skeletons (branch conditions, loop heads, returns, order of calls and of state
+    assignments) of `DB.checksum`, `DB.setDatabasePageChecksum`, `DB.resetDatabasePageChecksumsAfter`, `DB.truncateDatabase`, regenerated from the current source on every run, are the ones the
+    model was written and validated against (Model/ExpectedSkel.lean): a reordered, dropped or
+    altered check or call in these functions breaks this theorem -/
+theorem C04_source_skeletons :
+    Gen.Skel.DB_checksum = Expected.Skel.DB_checksum ∧
+    Gen.Skel.DB_setDatabasePageChecksum = Expected.Skel.DB_setDatabasePageChecksum ∧
+    Gen.Skel.DB_resetDatabasePageChecksumsAfter = Expected.Skel.DB_resetDatabasePageChecksumsAfter ∧
+    Gen.Skel.DB_truncateDatabase = Expected.Skel.DB_truncateDatabase :=
+  ⟨rfl, rfl, rfl, rfl⟩
 
 end LiteFSVerif.C04
